@@ -34,6 +34,10 @@ class HTTPDriver(explore.Driver):
         self.L, self.cs, self.keep, self.flavour = length, cs, keep, flavour
         self.past_eof = past_eof
         self.blob = blob_for(length)
+        # flavour "s3": dclab's S3File (its own header parsing and range
+        # download) on a stand-in for the boto3 object
+        self.where = (WHERE if flavour != "s3"
+                      else "dclab.rtdc_dataset.fmt_s3:S3File")
 
     def config(self):
         return {"length": self.L, "chunk_size": self.cs,
@@ -42,7 +46,8 @@ class HTTPDriver(explore.Driver):
     def fresh(self):
         from dclab import http_utils
         st = St()
-        st.host = fakehttp.FakeHost(self.flavour)
+        st.host = fakehttp.FakeHost(
+            "rfc" if self.flavour == "s3" else self.flavour)
         # one URL per configuration: a state must not depend on what was
         # served under the same URL earlier in this process (that is the
         # subject of _reopen_case)
@@ -51,8 +56,11 @@ class HTTPDriver(explore.Driver):
         st.host.add(url, self.blob)
         st.ctx = fakehttp.installed(st.host)
         st.ctx.__enter__()
-        st.f = http_utils.HTTPFile(url, chunk_size=self.cs,
-                                   keep_chunks=self.keep)
+        if self.flavour == "s3":
+            st.f = fakehttp.stub_s3file(url, self.blob, self.cs, self.keep)
+        else:
+            st.f = http_utils.HTTPFile(url, chunk_size=self.cs,
+                                       keep_chunks=self.keep)
         # the fake host stays installed for the life of the state (every
         # request the file object ever makes goes to it, also lazy ones)
         st.pos = 0          # model position
@@ -137,7 +145,7 @@ class HTTPDriver(explore.Driver):
     def check(self, st):
         out = []
         if st.err:
-            out.append(violation(WHERE, "exception", None, st.err,
+            out.append(violation(self.where, "exception", None, st.err,
                                  {"exc": st.err.split(":")[0]}))
             return out
         if st.last:
@@ -146,17 +154,17 @@ class HTTPDriver(explore.Driver):
                 eof = "past-eof" if pos + n > self.L else (
                     "to-eof" if pos + n == self.L else "inside")
                 out.append(violation(
-                    WHERE + ".read", "wrong-bytes", None,
+                    self.where + ".read", "wrong-bytes", None,
                     f"read({n}) at {pos} of L={self.L} cs={self.cs}: got "
                     f"{got.hex()} expected {exp.hex()}", {"range": eof}))
         if st.tell != st.pos:
-            out.append(violation(WHERE + ".tell", "wrong-position", None,
+            out.append(violation(self.where + ".tell", "wrong-position", None,
                                  f"tell()={st.tell} expected {st.pos}"))
         cache = st.f.cache
         total = sum(len(v) for v in cache.values())
         if len(cache) > self.keep or total > self.keep * self.cs:
             out.append(violation(
-                WHERE + ".get_cache_chunk", "cache-bound-exceeded", None,
+                self.where + ".get_cache_chunk", "cache-bound-exceeded", None,
                 f"cache holds {len(cache)} entries / {total} bytes; "
                 f"keep_chunks={self.keep} chunk_size={self.cs} "
                 f"(max {self.keep * self.cs} bytes)",
@@ -184,6 +192,8 @@ def grid(ctx):
             if not ctx.quick or cs == 4:
                 cfgs.append((L, cs, 2, "strict416"))
                 cfgs.append((L, cs, 2, "empty206"))
+            for keep in ((1, 3) if ctx.quick else (1, 2, 3)):
+                cfgs.append((L, cs, keep, "s3"))
     return cfgs
 
 
@@ -202,9 +212,10 @@ def _ds_case(args):
     import dclab
     from dclab import http_utils
     from dclab.rtdc_dataset import fmt_http
-    n, cs_kind, keep, seed, scratch = args
+    n, cs_kind, keep, seed, scratch = args[:5]
+    via = args[5] if len(args) > 5 else "http"
     gen.register_user_features()
-    path = scratch / f"c19_{n}_{cs_kind}_{keep}.rtdc"
+    path = scratch / f"c19_{via}_{n}_{cs_kind}_{keep}.rtdc"
     ev = gen.make_events(n, seed=seed)
     with gen.chunk_bytes(100):
         gen.write_rtdc(path, ev, logs={"vf-log": ["line 1", "line µ 2"]},
@@ -220,27 +231,45 @@ def _ds_case(args):
         cs = int(cs_kind)
     host = fakehttp.FakeHost("rfc")
     url = "http://vf.example/data.rtdc"
+    if via == "s3":
+        url = "http://vf-s3.example/vf-bucket/data-%d.rtdc" % n
     host.add(url, blob)
     out = []
     tags = {"cs": cs_kind, "keep": keep}
+    if via == "s3":
+        tags["via"] = "s3"
     old = fmt_http.HTTPFile
     fmt_http.HTTPFile = functools.partial(http_utils.HTTPFile, chunk_size=cs,
                                           keep_chunks=keep)
+    from dclab.rtdc_dataset import fmt_s3
+    old_init = http_utils.HTTPFile.__init__
+
+    def small_chunk_init(self, url, chunk_size=2**18, keep_chunks=200):
+        # S3File has no chunk parameters of its own
+        if isinstance(self, fmt_s3.S3File):
+            chunk_size, keep_chunks = cs, keep
+        old_init(self, url, chunk_size=chunk_size, keep_chunks=keep_chunks)
     nfeat = 0
+    WDS = ("dclab.rtdc_dataset.fmt_s3:RTDC_S3" if via == "s3"
+           else "dclab.rtdc_dataset.fmt_http:RTDC_HTTP")
     try:
-        with fakehttp.installed(host):
+        with fakehttp.installed(host, s3=(via == "s3")):
             try:
-                with dclab.new_dataset(path) as dl, \
-                        fmt_http.RTDC_HTTP(url) as dh:
+                if via == "s3":
+                    http_utils.HTTPFile.__init__ = small_chunk_init
+                    opener = fmt_s3.RTDC_S3
+                else:
+                    opener = fmt_http.RTDC_HTTP
+                with dclab.new_dataset(path) as dl, opener(url) as dh:
                     if len(dh) != len(dl):
                         out.append(violation(
-                            "dclab.rtdc_dataset.fmt_http:RTDC_HTTP",
+                            WDS,
                             "wrong-length", None,
                             f"{len(dh)} != {len(dl)}", tags))
                     if sorted(dh.features_innate) != sorted(
                             dl.features_innate):
                         out.append(violation(
-                            "dclab.rtdc_dataset.fmt_http:RTDC_HTTP",
+                            WDS,
                             "wrong-features", None,
                             f"{dh.features_innate} != {dl.features_innate}",
                             tags))
@@ -258,7 +287,7 @@ def _ds_case(args):
                             ok = gen.arrays_equal(dh[feat][:], dl[feat][:])
                         if not ok:
                             out.append(violation(
-                                "dclab.rtdc_dataset.fmt_http:RTDC_HTTP",
+                                WDS,
                                 "wrong-feature-data", None, feat,
                                 dict(tags, feat=feat)))
                     if dict(dh.config.as_dict() if hasattr(
@@ -269,24 +298,24 @@ def _ds_case(args):
                         b = {s: dict(dl.config[s]) for s in dl.config}
                         if repr(a) != repr(b):
                             out.append(violation(
-                                "dclab.rtdc_dataset.fmt_http:RTDC_HTTP",
+                                WDS,
                                 "wrong-metadata", None, f"{a} != {b}", tags))
                     if {k: dh.logs[k] for k in dh.logs} != {
                             k: dl.logs[k] for k in dl.logs}:
                         out.append(violation(
-                            "dclab.rtdc_dataset.fmt_http:RTDC_HTTP",
+                            WDS,
                             "wrong-logs", None, "", tags))
                     for k in dl.tables:
                         if not np.array_equal(dh.tables[k][:],
                                               dl.tables[k][:]):
                             out.append(violation(
-                                "dclab.rtdc_dataset.fmt_http:RTDC_HTTP",
+                                WDS,
                                 "wrong-tables", None, k, tags))
                     if sorted(dh.tables) != sorted(dl.tables):
                         out.append(violation(
-                            "dclab.rtdc_dataset.fmt_http:RTDC_HTTP",
+                            WDS,
                             "wrong-tables", None, "keys", tags))
-                    cache = dh._fhttp.cache
+                    cache = (dh._s3file if via == "s3" else dh._fhttp).cache
                     total = sum(len(v) for v in cache.values())
                     if len(cache) > keep or total > keep * cs:
                         out.append(violation(
@@ -298,15 +327,16 @@ def _ds_case(args):
                              else "bytes"}))
             except Exception as e:
                 out.append(violation(
-                    "dclab.rtdc_dataset.fmt_http:RTDC_HTTP", "exception",
+                    WDS, "exception",
                     None, f"{type(e).__name__}: {e}",
                     dict(tags, exc=type(e).__name__)))
     finally:
         fmt_http.HTTPFile = old
+        http_utils.HTTPFile.__init__ = old_init
         path.unlink()
     for v in out:
         v["case"] = {"kind": "dataset", "n": n, "cs_kind": cs_kind,
-                     "keep": keep, "seed": seed}
+                     "keep": keep, "seed": seed, "via": via}
     return {"requests": len(host.log), "L": L, "cs": cs, "feats": nfeat}, out
 
 
@@ -360,6 +390,75 @@ def _reopen_case(args):
     return cnt, out
 
 
+def _s3_boto_case(L):
+    """dclab's S3File built the regular way (boto3 session, resource and
+    object) over a botocore transport that is answered from memory, with
+    the chunk geometry S3File really uses (2**18 bytes): reads around the
+    chunk boundaries and the end of the object; availability probe."""
+    from dclab.rtdc_dataset import fmt_s3
+    W = "dclab.rtdc_dataset.fmt_s3:S3File"
+    out = []
+    cnt = 0
+    cs = 2 ** 18
+    blob = blob_for(L)
+    host = fakehttp.FakeHost("rfc")
+    url = "http://vf-s3.example/vf-bucket/obj-%d" % L
+    host.add(url, blob)
+    case = {"kind": "s3-boto", "L": L}
+    with fakehttp.installed(host, s3=True):
+        try:
+            f = fmt_s3.S3File("vf-bucket/obj-%d" % L,
+                              "http://vf-s3.example:80")
+            plan = [("set", 0, 4), ("set", cs - 2, 4), ("set", cs, 1),
+                    ("set", cs - 1, cs + 2), ("end", -3, 3), ("end", -1, 5),
+                    ("cur", -2, 2), ("set", max(L - cs - 1, 0), -1),
+                    ("cur", 0, 0), ("set", 2 * cs - 1, 2), ("set", 1, 0),
+                    ("cur", 0, 3), ("end", 0, 1)]
+            pos = 0
+            for whence, off, nread in plan:
+                new = {"set": off, "cur": pos + off, "end": L + off}[whence]
+                if not 0 <= new <= L:
+                    continue
+                cnt += 1
+                f.seek(off, {"set": os.SEEK_SET, "cur": os.SEEK_CUR,
+                             "end": os.SEEK_END}[whence])
+                got = bytes(f.read(nread))
+                exp = blob[new:] if nread < 0 else blob[new:new + nread]
+                pos = new + len(exp)
+                tell = f.tell()
+                if got != exp or tell != pos:
+                    out.append(violation(
+                        W + ".read", "wrong-bytes", case,
+                        f"L={L}: seek({whence},{off}) read({nread}) -> "
+                        f"{len(got)} bytes {got[:8].hex()}.. tell {tell}; "
+                        f"expected {len(exp)} bytes {exp[:8].hex()}.. tell "
+                        f"{pos}", {"via": "boto"}))
+                    break
+            if f.length != L:
+                out.append(violation(W, "wrong-length", case,
+                                     f"{f.length} != {L}", {"via": "boto"}))
+            total = sum(len(v) for v in f.cache.values())
+            if total > f.max_cache_size:
+                out.append(violation(W, "cache-bound-exceeded", case,
+                                     f"{total} bytes", {"via": "boto"}))
+            f.close()
+            for u, want in ((url, True),
+                            (url + "-missing", False),
+                            (url.replace("vf-s3", "nohost"), False)):
+                cnt += 1
+                got = fmt_s3.is_s3_object_available(u)
+                if bool(got) != want:
+                    out.append(violation(
+                        "dclab.rtdc_dataset.fmt_s3:is_s3_object_available",
+                        "wrong-availability", case,
+                        f"{u}: {got}, expected {want}", {"via": "boto"}))
+        except Exception as e:
+            out.append(violation(W, "exception", case,
+                                 f"{type(e).__name__}: {e}",
+                                 {"exc": type(e).__name__, "via": "boto"}))
+    return cnt, out
+
+
 def run(ctx):
     depth = 5 if ctx.quick else 9
     dev = 1
@@ -379,7 +478,20 @@ def run(ctx):
         for cs_kind in ("1024", "4096", "divisor"):
             for keep in ((2, 5) if ctx.quick else (1, 2, 5, 50)):
                 ds_items.append((n, cs_kind, keep, ctx.seed, ctx.scratch))
+    for n in ((3, 11) if ctx.quick else (1, 3, 11, 23)):
+        for cs_kind in (("1024", "divisor") if ctx.quick
+                        else ("1024", "4096", "divisor")):
+            for keep in ((2,) if ctx.quick else (1, 2, 5)):
+                ds_items.append((n, cs_kind, keep, ctx.seed, ctx.scratch,
+                                 "s3"))
     ds_res = par.pmap(_ds_case, ds_items)
+    cs = 2 ** 18
+    boto = par.pmap(_s3_boto_case,
+                    [1, cs - 1, cs, cs + 1, 2 * cs, 2 * cs + 1]
+                    + ([] if ctx.quick else [3 * cs - 1, 3 * cs]))
+    cov["s3_boto_operations"] = sum(n for n, _ in boto)
+    for _, vs in boto:
+        viols.extend(vs)
     for info, vs in ds_res:
         viols.extend(vs)
     ro = par.pmap(_reopen_case, [(cs, keep) for cs in (4, 7, 16)
@@ -410,8 +522,11 @@ def run(ctx):
 def replay(case, ctx):
     if case.get("kind") == "dataset":
         _, vs = _ds_case((case["n"], case["cs_kind"], case["keep"],
-                          case["seed"], ctx.scratch))
+                          case["seed"], ctx.scratch,
+                          case.get("via", "http")))
         return vs
+    if case.get("kind") == "s3-boto":
+        return _s3_boto_case(case["L"])[1]
     if case.get("kind") == "reopen":
         return _reopen_case((case["cs"], case["keep"]))[1]
     c = case["config"]
